@@ -294,8 +294,10 @@ def _(c):
         p = mk_plugin(b, state=mk_motion_state(b, extended=b.gcode_table()))
         k = b.choose(3, "gcode")
         gcode = [None, "", b.string("gcode")][k]
+        g = {"P": mk_printer(b)}
+        b.spy(g, p.gcodeHandlers, "handleGcode")
         return {"self": p, "args": {"commInstance": b.comm(b.bool("streaming")), "phase": "queuing", "cmd": b.string("cmd"),
-                                    "cmdType": None, "gcode": gcode, "subcode": None, "tags": None}, "ghost": {"P": mk_printer(b)}}
+                                    "cmdType": None, "gcode": gcode, "subcode": None, "tags": None}, "ghost": g}
     c.pre(pre)
     c.requires("Inv", lambda f: hook_inv(f))
     c.requires("deferred-table-domain", lambda f: True if (f.a.gcode is None or (isinstance(f.a.gcode, str) and not f.a.gcode)) else hook_deferred(f))
@@ -339,9 +341,12 @@ def delegates(f, name):
 def _(c):
     def pre(b):
         from contracts.motion import mk_motion_state, mk_printer
-        return {"self": mk_plugin(b, state=mk_motion_state(b)),
+        p = mk_plugin(b, state=mk_motion_state(b))
+        g = {"P": mk_printer(b)}
+        b.spy(g, p.gcodeHandlers, "handleAtCommand")
+        return {"self": p,
                 "args": {"commInstance": b.comm(b.bool("streaming")), "phase": "queuing",
-                         "cmd": b.string("cmd"), "parameters": b.string("parameters"), "tags": None}, "ghost": {"P": mk_printer(b)}}
+                         "cmd": b.string("cmd"), "parameters": b.string("parameters"), "tags": None}, "ghost": g}
     c.pre(pre)
     c.requires("Inv", lambda f: hook_inv(f))
     c.modifies(lambda f: [(f.self.state, k) for k in f.self.state.fields])
